@@ -67,15 +67,19 @@ def checkRules (rs : List (Str × Tree)) (skip : Bool) : Bool :=
 /-- Exit status of `oslopolicy-validator` (0 = ok): a missing policy file fails outright;
 otherwise invalid rules, a file rule the service does not register, or a rule that was
 forced to `!` although its text is not `!` (YAML null included) each fail. -/
-def validatorStatus (fileMissing : Bool) (rs : List (Str × Tree))
+def forcedToFalse (rs : List (Str × Tree)) (p : Str × Bool) : Bool :=
+  match afind p.1 rs with
+  | some t => t.print = ['!'] && !p.2
+  | none => false
+
+def validatorFails (fileMissing : Bool) (rs : List (Str × Tree))
     (fileRules : List (Str × Bool))   -- (name, "its source value is the text `!` or null")
+    (registered : List Str) : Bool :=
+  fileMissing || !(checkRules rs false) || fileRules.any (fun p => !registered.contains p.1) ||
+    fileRules.any (forcedToFalse rs)
+
+def validatorStatus (fileMissing : Bool) (rs : List (Str × Tree)) (fileRules : List (Str × Bool))
     (registered : List Str) : Nat :=
-  if fileMissing then 1
-  else if !(checkRules rs false) then 1
-  else if fileRules.any (fun p => !registered.contains p.1) then 1
-  else if fileRules.any (fun p => match afind p.1 rs with
-      | some t => t.print = ['!'] && !p.2
-      | none => false) then 1
-  else 0
+  if validatorFails fileMissing rs fileRules registered then 1 else 0
 
 end OsloPolicy
